@@ -237,7 +237,7 @@ def gen(ctx):
             yield _direct_case(rng, ctx.tier, shape=item[2], cls=item[1])
         else:
             yield _helper_case(rng, ctx.tier, helper=item[1], k=item[2])
-    for _ in range(ctx.n(110, 5000)):
+    for _ in range(ctx.n(110, 4000)):
         if rng.random() < 0.2:
             yield _helper_case(rng, ctx.tier)
         else:
